@@ -74,6 +74,25 @@ func (DecoderEngine) Generate(r *core.Rand, tier core.Tier) *core.Scenario {
 	return sc
 }
 
+// Simplify implements core.Simplifier: drop single operators of multi-operator cases.
+func (DecoderEngine) Simplify(sc *core.Scenario) []*core.Scenario {
+	var out []*core.Scenario
+	for i, raw := range sc.Ops {
+		var cs Case
+		if json.Unmarshal(raw, &cs) != nil || len(cs.M) < 2 {
+			continue
+		}
+		for j := range cs.M {
+			t := cs
+			t.M = append(append([]MutOp{}, cs.M[:j]...), cs.M[j+1:]...)
+			c := sc.Clone()
+			c.Ops[i] = core.MustJSON(t)
+			out = append(out, c)
+		}
+	}
+	return out
+}
+
 func dViol(kind, fp, detail string) *core.Violation {
 	return &core.Violation{Property: "C16", Kind: kind, Fingerprint: fp, Detail: detail}
 }
